@@ -28,7 +28,8 @@ from __future__ import annotations
 import ast
 
 from ..repo import AnalysisError, FuncInfo, dotted, own_nodes
-from .common import only_called_from, source_pos
+from .common import only_called_from, source_pos, step_of
+from .roles import node_counter_attr
 
 MANIFEST = {
     "text": (
@@ -123,7 +124,7 @@ def run(ctx):
             raise AnalysisError(f"graph building block {name} vanished")
         # helper extractions are undone for the edge/node blocks; the builders'
         # composition is judged on the original call list
-        fn[name] = raw[name] if name in COMPOSITION and name != "build_solved_disjunctive_graph" else ctx.norm.flat(raw[name])
+        fn[name] = raw[name] if name in COMPOSITION and name != "build_solved_disjunctive_graph" else ctx.norm.flat(raw[name], depth=4)
 
     # ---------------------------------------------------------------- R16.a
     for name in UNDIRECTED:
@@ -238,7 +239,7 @@ def run(ctx):
 
     # ---------------------------------------------------------------- R16.c
     for bname, (must, mustnot) in COMPOSITION.items():
-        f = raw[bname]
+        f = ctx.norm.flat(raw[bname], depth=3)  # private grouping helpers inlined; the public blocks stay calls
         called = []
         _pos = source_pos(f.node)
         for n in own_nodes(f.node):
@@ -273,6 +274,19 @@ def run(ctx):
                         bad = True
                         x = [c for c in called if c[1] == u][0]
                         chk.violation("R16.c", f, x[2], f"{bname} calls {u} before {first}: the nodes it connects do not exist yet", loc=f.loc(x[2]))
+        # JobShopGraph.add_edge overwrites the attributes of an existing edge
+        # (R16.g), so where a job arc and a machine relation coincide (two
+        # consecutive operations of a job on the same machine) the type written
+        # LAST wins: the conjunctive edges must be added after the disjunctive ones
+        if "add_disjunctive_edges" in names and "add_conjunctive_edges" in names and names.index("add_conjunctive_edges") < names.index("add_disjunctive_edges"):
+            bad = True
+            x = [c for c in called if c[1] == "add_disjunctive_edges"][0]
+            chk.violation(
+                "R16.c", f, x[2],
+                f"{bname} adds the disjunctive edges after the conjunctive ones: add_edge overwrites the type of an existing "
+                "edge, so the job arc between two consecutive operations that share a machine ends up typed DISJUNCTIVE",
+                loc=f.loc(x[2]),
+            )
         # graph = JobShopGraph(instance) ... return graph
         ctor = [n for n in own_nodes(f.node) if isinstance(n, ast.Call) and ast.unparse(n.func) == "JobShopGraph"]
         if len(ctor) != 1 or any(k.arg == "add_operation_nodes" for k in ctor[0].keywords) or len(ctor[0].args) > 1:
@@ -471,8 +485,12 @@ def _solved_pairs(ctx, sg, arc):
         )
 
 
+COUNTER = ["self._next_node_id"]
+
+
 def _node_ids(ctx):
     chk, repo = ctx.chk, ctx.repo
+    COUNTER[0] = "self." + node_counter_attr(ctx)
     g = repo.find_class("JobShopGraph")
     init, addn, addops = g.methods.get("__init__"), g.methods.get("add_node"), g.methods.get("add_operation_nodes")
     if None in (init, addn, addops):
@@ -481,30 +499,46 @@ def _node_ids(ctx):
     addn, addops = ctx.norm.flat(addn), ctx.norm.flat(addops)
     # counter: initialised 0 in __init__, advanced by one only in add_node, after assignment
     ok = True
+    C = COUNTER[0]
     for m in g.methods.values():
+        mf = ctx.norm.flat(m) if m is not init else m
         for n in own_nodes(m.node):
-            if isinstance(n, ast.Assign) and ast.unparse(n.targets[0]) == "self._next_node_id":
-                if not (m is init and isinstance(n.value, ast.Constant) and n.value.value == 0):
-                    ok = False
-                    chk.violation("R16.d", m, n, f"the node id counter is rebound by `{ast.unparse(n)}`: ids no longer start at 0 / are reused", loc=m.loc(n))
-            elif isinstance(n, ast.AugAssign) and ast.unparse(n.target) == "self._next_node_id":
-                if not ((m is addn_raw or only_called_from(ctx, m, {addn_raw})) and isinstance(n.op, ast.Add) and isinstance(n.value, ast.Constant) and n.value.value == 1):
-                    ok = False
-                    chk.violation("R16.d", m, n, f"the node id counter is changed by `{ast.unparse(n)}` outside add_node / not by one", loc=m.loc(n))
+            is_write = (isinstance(n, ast.Assign) and len(n.targets) == 1 and ast.unparse(n.targets[0]) == C) or (
+                isinstance(n, ast.AugAssign) and ast.unparse(n.target) == C)
+            if not is_write:
+                continue
+            if m is init and isinstance(n, ast.Assign) and isinstance(n.value, ast.Constant) and n.value.value == 0:
+                continue
+            k = step_of(ctx, m, n, C)
+            owned = m is addn_raw or only_called_from(ctx, m, {addn_raw})
+            if k == 1 and owned:
+                continue
+            ok = False
+            if isinstance(n, ast.Assign) and k is None:
+                chk.violation("R16.d", m, n, f"the node id counter is rebound by `{ast.unparse(n)}`: ids no longer start at 0 / are reused", loc=m.loc(n))
+            else:
+                chk.violation("R16.d", m, n, f"the node id counter is changed by `{ast.unparse(n)}` outside add_node / not by one", loc=m.loc(n))
+    pos = source_pos(addn.node)
     assign = [n for n in own_nodes(addn.node) if isinstance(n, ast.Assign) and ast.unparse(n.targets[0]).endswith(".node_id")]
-    inc = [n for n in own_nodes(addn.node) if isinstance(n, ast.AugAssign) and ast.unparse(n.target) == "self._next_node_id"]
-    if not assign or ast.unparse(assign[0].value) != "self._next_node_id" or not inc or source_pos(addn.node)(inc[0]) < source_pos(addn.node)(assign[0]):
+    inc = [n for n in own_nodes(addn.node) if step_of(ctx, addn, n, C) == 1]
+    if not assign or ctx.norm.xtext(addn, assign[0].value) != C or not inc or pos(inc[0]) < pos(assign[0]):
         ok = False
         chk.violation("R16.d", addn, assign[0] if assign else None, "add_node does not assign the current counter value before advancing it: node ids do not start at 0")
     # removed_nodes grows with every node
-    if not any(isinstance(n, ast.Call) and ast.unparse(n.func) == "self.removed_nodes.append" and ast.unparse(n.args[0]) == "False" for n in own_nodes(addn.node)):
+    if not any(isinstance(n, ast.Call) and ctx.norm.xtext(addn, n.func) == "self.removed_nodes.append" and ast.unparse(n.args[0]) == "False" for n in own_nodes(addn.node)):
         ok = False
         chk.violation("R16.d", addn, None, "add_node does not extend removed_nodes with False: the mask is shorter than the node list")
     # the graph node key is the node id
-    gn = [n for n in own_nodes(addn.node) if isinstance(n, ast.Call) and ast.unparse(n.func) == "self.graph.add_node"]
-    if not gn or not ast.unparse(gn[0].args[0]).endswith(".node_id"):
+    gn = [n for n in own_nodes(addn.node) if isinstance(n, ast.Call) and ctx.norm.xtext(addn, n.func) == "self.graph.add_node"]
+    node_p = addn_raw.params[1]
+    key_ok = False
+    if gn and gn[0].args:
+        kt = ctx.norm.xtext(addn, gn[0].args[0])
+        key_ok = kt.endswith(".node_id") or (kt == C and inc and pos(gn[0]) < pos(inc[0]))
+    if not key_ok:
         ok = False
         chk.violation("R16.d", addn, gn[0] if gn else None, "the networkx node key is not the node id")
+    del node_p
     # indexes: by job and by every eligible machine
     node_param = addn_raw.params[1]
     xt = lambda e: ctx.norm.xtext(addn, e)  # noqa: E731
@@ -557,9 +591,29 @@ def _node_ids(ctx):
         chk.violation("R16.d", init, None, "JobShopGraph does not add the operation nodes first by default")
     # job-major order, one node per operation
     fors = sorted([n for n in own_nodes(addops.node) if isinstance(n, ast.For)], key=source_pos(addops.node))
-    if not (len(fors) == 2 and ast.unparse(fors[0].iter) == "self.instance.jobs" and ast.unparse(fors[1].iter) == ast.unparse(fors[0].target)):
-        ok = False
-        chk.violation("R16.d", addops, fors[0] if fors else None, "operation nodes are not added in job-major order over instance.jobs")
+    # one loop over the flattened job list is the same traversal:
+    # chain.from_iterable(jobs) / chain(*jobs) / a nested comprehension
+    flat_iter = False
+    if len(fors) == 1:
+        it = ctx.norm.xexpr(addops, fors[0].iter)
+        itx = ast.unparse(it).replace(" ", "")
+        flat_iter = itx in (
+            "itertools.chain.from_iterable(self.instance.jobs)", "chain.from_iterable(self.instance.jobs)",
+            "itertools.chain(*self.instance.jobs)", "chain(*self.instance.jobs)",
+        ) or (
+            isinstance(it, (ast.ListComp, ast.GeneratorExp)) and len(it.generators) == 2 and not any(g.ifs for g in it.generators)
+            and ast.unparse(it.generators[0].iter) == "self.instance.jobs"
+            and ast.unparse(it.generators[1].iter) == ast.unparse(it.generators[0].target)
+            and ast.unparse(it.elt) == ast.unparse(it.generators[1].target)
+        )
+        if flat_iter:
+            fors = [fors[0], fors[0]]
+    if not flat_iter and not (len(fors) == 2 and ast.unparse(fors[0].iter) == "self.instance.jobs" and ast.unparse(fors[1].iter) == ast.unparse(fors[0].target)):
+        if fors and "jobs" not in ctx.norm.xtext(addops, fors[0].iter):
+            ok = False
+            chk.violation("R16.d", addops, fors[0], "operation nodes are not added in job-major order over instance.jobs")
+        else:
+            raise AnalysisError("add_operation_nodes: traversal of instance.jobs not recognised")
     else:
         body = fors[1].body
         mk = [n for n in ast.walk(fors[1]) if isinstance(n, ast.Call) and ast.unparse(n.func) == "Node"]
@@ -577,14 +631,14 @@ def _node_ids(ctx):
 def _enumeration(ctx, fn):
     chk = ctx.chk
     want = {
-        "add_disjunctive_edges": ("graph.nodes_by_machine", "itertools.combinations(machine, 2)"),
-        "add_same_job_operations_edges": ("graph.nodes_by_job", "itertools.combinations(job, 2)"),
+        "add_disjunctive_edges": ("graph.nodes_by_machine", "itertools.combinations($v, 2)"),
+        "add_same_job_operations_edges": ("graph.nodes_by_job", "itertools.combinations($v, 2)"),
         "add_machine_machine_edges": (None, "itertools.combinations(graph.nodes_by_type[NodeType.MACHINE], 2)"),
         "add_job_job_edges": (None, "itertools.combinations(graph.nodes_by_type[NodeType.JOB], 2)"),
         "add_machine_global_edges": (None, "graph.nodes_by_type[NodeType.MACHINE]"),
         "add_job_global_edges": (None, "graph.nodes_by_type[NodeType.JOB]"),
-        "add_operation_machine_edges": ("graph.nodes_by_type[NodeType.MACHINE]", "graph.nodes_by_machine[machine_node.machine_id]"),
-        "add_operation_job_edges": ("graph.nodes_by_type[NodeType.JOB]", "graph.nodes_by_job[job_node.job_id]"),
+        "add_operation_machine_edges": ("graph.nodes_by_type[NodeType.MACHINE]", "graph.nodes_by_machine[$v.machine_id]"),
+        "add_operation_job_edges": ("graph.nodes_by_type[NodeType.JOB]", "graph.nodes_by_job[$v.job_id]"),
     }
     for name, (outer, inner) in want.items():
         f = fn[name]
@@ -598,6 +652,12 @@ def _enumeration(ctx, fn):
             return ctx.norm.xtext(f, lp.iter)
 
         its = [it_text(lp) for lp in loops]
+        # the outer loop's variable is spelled `$v` in the inner iterable, so
+        # the comparison does not depend on how the variable is named
+        if len(loops) == 2 and isinstance(loops[1].target, ast.Name):
+            import re as _re
+
+            its[0] = _re.sub(r"(?<![A-Za-z0-9_])" + _re.escape(loops[1].target.id) + r"(?![A-Za-z0-9_])", "$v", its[0])
         exp = [inner] + ([outer] if outer else [])
         bad_single = [
             n for n in own_nodes(f.node)
